@@ -2,6 +2,7 @@
 
 pub mod dynamic;
 pub mod static_eval;
+pub mod store_io;
 
 use crate::report::Ctx;
 use serde_json::Value;
@@ -15,6 +16,9 @@ pub fn run(ctx: &mut Ctx, prop: &str) -> bool {
         "C04" => static_eval::run(ctx, static_eval::Prop::C04),
         "C07" => static_eval::run(ctx, static_eval::Prop::C07),
         "C08" | "C09" => dynamic::run(ctx, prop),
+        "C12" => store_io::run_c12(ctx),
+        "C13" => store_io::run_c13(ctx),
+        "C14" => store_io::run_c14(ctx),
         _ => return false,
     }
     true
@@ -28,6 +32,9 @@ pub fn replay(ctx: &mut Ctx, prop: &str, case: &Value, detail: &Value) -> Result
         "C04" => static_eval::replay(ctx, static_eval::Prop::C04, case, detail),
         "C07" => static_eval::replay(ctx, static_eval::Prop::C07, case, detail),
         "C08" | "C09" => dynamic::replay(ctx, prop, case),
+        "C12" => store_io::replay_c12(ctx, case),
+        "C13" => store_io::replay_c13(ctx, case),
+        "C14" => store_io::replay_c14(ctx, case),
         _ => Err(format!("unknown property {}", prop)),
     }
 }
